@@ -55,6 +55,9 @@ LdFinal(s) == CASE s.st = "len0" -> "end" [] s.st \in {"len1", "data"} -> "eof" 
 RECURSIVE LdRun(_, _)
 LdRun(s, toks) == IF toks = <<>> \/ s.st \in {"invalid", "maxlen"} THEN s ELSE LdRun(LdStep(s, Head(toks)), Tail(toks))
 LdLens(s) == [i \in 1..Len(s.frames) |-> Len(s.frames[i])]
+\* the frame buffer is sized from the prefix (`read_buffer.resize(len)`): what a prefix can
+\* announce never exceeds two length bytes' worth
+LdAllocBounded(s) == s.st = "data" => s.rem + Len(s.cur) <= MaxFrame
 -----------------------------------------------------------------------------
 (* B. Substream length prefix.  Class [k, flavour, term, rel]:              *)
 (*   k        number of continuation bytes before the terminator (0..11)    *)
